@@ -44,6 +44,8 @@ Classes(D, m, u, o) ==
     \cup (IF WinAll(D, m, u, 0) # WinOwn(D, m, u, 0) THEN {"method-hidden"} ELSE {})
     \cup (IF Cardinality({d \in D : MatchesX(d.p, u)}) >= 2 THEN {"overlap"} ELSE {})
     \cup (IF \E d \in WinAll(D, m, u, 0) \cup WinOwn(D, m, u, 0) : ~d.re THEN {"winner-disabled"} ELSE {})
+    \cup (IF \E i \in 1..Len(Path(u)) : Path(u)[i] = "" THEN
+             {"empty-segment"} \cup (IF o.sel # {} \/ o.lk.match THEN {"empty-segment-matched"} ELSE {}) ELSE {})
     \cup (IF Len(Host(u)) # 2 /\ \E d \in D : Matches(d.p, u) /\ ~MatchesX(d.p, u) THEN {"host-shape"} ELSE {})
 
 Group(t) ==
